@@ -5,6 +5,7 @@ package main
 import (
 	"fmt"
 	"go/constant"
+	"go/token"
 	"go/types"
 	"sort"
 	"strconv"
@@ -109,6 +110,29 @@ func (ex *Ex) lookupIdent(env *Env, name string) (SV, bool) {
 				if v, ok := st.regs[phi]; ok && v.T != nil {
 					return SV{T: Add(v.T, IntLit(1)), Ty: tInt}, true
 				}
+			}
+		}
+	}
+	if name == "$range" && fr != nil && fr.CurLoop != nil {
+		// the slice the current range loop iterates over (its value is fixed before the loop)
+		for _, ins := range fr.CurLoop.Header.Instrs {
+			bo, ok := ins.(*ssa.BinOp)
+			if !ok || bo.Op != token.LSS {
+				continue
+			}
+			lc, ok := bo.Y.(*ssa.Call)
+			if !ok {
+				continue
+			}
+			if b, isB := lc.Call.Value.(*ssa.Builtin); !isB || b.Name() != "len" {
+				continue
+			}
+			rv := lc.Call.Args[0]
+			if _, isSl := rv.Type().Underlying().(*types.Slice); !isSl {
+				continue
+			}
+			if v, ok := st.regs[rv]; ok {
+				return SV{T: ex.termOf(fr, st, v, rv.Type()), Ty: SType{G: rv.Type()}}, true
 			}
 		}
 	}
